@@ -48,15 +48,18 @@ def deque(prog, nsteal, nthief, ninit, head, rounds, K=1, tiers=('quick', 'thoro
 # quick tier
 deque('gg', 1, 1, 2, 0, 3)                       # last-task arbitration owner vs thief
 deque('s', 1, 1, 1, 63, 3)                       # relocation (compaction) while a thief works on the old window
-deque('sg', 1, 1, 1, 0, 3)                       # concurrent spawn, then get
-deque('gs', 1, 1, 1, 0, 3)                       # owner takes the last task (pool reset + leave), re-publishes by spawn
-deque('g', 1, 2, 2, 0, 3)                        # two thieves
+deque('sg', 1, 1, 1, 0, 2)                       # concurrent spawn, then get
+deque('gs', 1, 1, 1, 0, 2)                       # owner takes the last task (pool reset + leave), re-publishes by spawn
+deque('g', 1, 2, 2, 0, 2)                        # two thieves
 deque('g', 2, 1, 2, 0, 2)                        # one thief stealing twice
 deque('g', 1, 1, 2, 0, 2, extra={'ISO': 1})      # isolation: skipped tasks / holes
-deque('gg', 1, 1, 2, 0, 2, extra={'ISO': 1})
 deque('gg', 1, 1, 3, 0, 2, extra={'HOLE': 1})    # pre-existing hole at a symbolic position
 # thorough tier: deeper
+deque('sg', 1, 1, 1, 0, 3, tiers=T_ONLY, timeout=3000)
+deque('gs', 1, 1, 1, 0, 3, tiers=T_ONLY, timeout=3000)
+deque('g', 1, 2, 2, 0, 3, tiers=T_ONLY, timeout=3000)
 deque('gg', 1, 1, 2, 0, 4, tiers=T_ONLY, timeout=3000)
+deque('gg', 1, 1, 2, 0, 2, extra={'ISO': 1}, tiers=T_ONLY, timeout=3000)
 deque('ggg', 1, 1, 3, 0, 3, tiers=T_ONLY, timeout=3000)
 deque('gg', 1, 2, 2, 0, 3, tiers=T_ONLY, timeout=3000)
 deque('gg', 2, 1, 3, 0, 3, tiers=T_ONLY, timeout=3000)
@@ -64,7 +67,7 @@ deque('sg', 1, 1, 2, 62, 3, K=2, tiers=T_ONLY, timeout=3000)
 deque('ss', 1, 1, 1, 63, 3, tiers=T_ONLY, timeout=3000)
 deque('gg', 1, 1, 2, 0, 3, extra={'ISO': 1}, tiers=T_ONLY, timeout=3000)
 deque('gg', 1, 1, 3, 0, 3, extra={'HOLE': 1}, tiers=T_ONLY, timeout=3000)
-deque('g', 1, 1, 1, 0, 2, tso=True, tiers=T_ONLY, timeout=3600, mem_gb=16)   # the --tail / ++head full-fence pair is a store-buffer question
+# (an x86-TSO variant, deque('g', 1, 1, 1, 0, 2, tso=True), builds but exceeds 16 GB in the SAT back end: not registered, see NOTES.md)
 
 def mail_unit(sprog, nmail, K=1):
     name = 'mail_%s_m%d_k%d' % (sprog, nmail, K)
@@ -93,10 +96,11 @@ def proxy(sprog, nmail, thief, pre, rounds, K=1, tiers=('quick', 'thorough'), ex
 
 # quick
 proxy('g', 1, 0, 1, 3)       # owner pop vs mailbox take of the same proxy
-proxy('n', 1, 1, 1, 3)       # thief (arena::steal_task) vs mailbox take
+proxy('n', 1, 1, 1, 2)       # thief (arena::steal_task) vs mailbox take
 proxy('s', 1, 0, 0, 2)       # the spawn itself (push to mailbox, then pool) races with the recipient
 proxy('s', 1, 0, 1, 2)       # second push races with the pop of the only element (my_last hand-shake)
 # thorough
+proxy('n', 1, 1, 1, 3, tiers=T_ONLY, timeout=3000)
 proxy('s', 1, 0, 1, 3, tiers=T_ONLY, timeout=3000)
 proxy('s', 2, 0, 1, 2, tiers=T_ONLY, timeout=3000)
 proxy('s', 2, 0, 1, 3, tiers=T_ONLY, timeout=3000)
@@ -146,8 +150,8 @@ MANIFEST = dict(
              '(handed out + still queued == submitted), proxies / tree nodes are freed exactly once and never touched afterwards, a wait is released '
              'exactly when all the work it covers has finished, and nobody is left spinning.',
   level_note='Concrete per query: which operations each thread performs (scenario list in evidence); symbolic: schedule, isolation tags, idle flags. '
-             'Bounds per harness in evidence (threads <= 3, free rounds 2-4 + 2 forced rounds, loop unroll, <= 3 tasks). Sequential consistency except '
-             'the TSO scenario of the thorough tier. The dispatch loop as a whole, task_stream, task_arena::execute delegation, pool growth (>= 48 tasks) '
+             'Bounds per harness in evidence (threads <= 3, free rounds 2-4 + 2 forced rounds, loop unroll, <= 3 tasks). Sequential consistency only. '
+             ' The dispatch loop as a whole, task_stream, task_arena::execute delegation, pool growth (>= 48 tasks) '
              'and get_thread_reference_vertex (std::unordered_map) are outside. Trusted: clang-14 IR, tools/ir2c.py, cbmc, kissat.',
 )
 OUTSIDE = [
@@ -156,7 +160,7 @@ OUTSIDE = [
   'pool growth in prepare_task_pool (needs >= 48 live tasks in a 64-entry pool); only the in-place compaction branch is exercised',
   'r1::get_thread_reference_vertex (std::unordered_map lookup/cleanup); vertices are constructed as it constructs them',
   'more than 3 threads, more than 3 tasks / 2 proxies, more than 3 operations per thread, schedules needing more rounds than stated',
-  'that the waiter sees the tasks\' writes (memory ordering): the model is sequentially consistent (x86-TSO only in the thorough deque_tso scenario); weaker hardware models outside',
+  'that the waiter sees the tasks\' writes (memory ordering): the model is sequentially consistent; x86-TSO store buffering and weaker hardware models are outside (a TSO variant of the smallest deque scenario exceeded 16 GB)',
   'user-level API glue (task_group::run/wait, parallel_for partitioners, flow graph) above these kernels; cancellation (skipped instead of run)',
 ]
 STUBS = [
